@@ -101,3 +101,201 @@ def cut(data, points):
         segs.append(data[last:p]); last = p
     segs.append(data[last:])
     return segs
+
+
+# ---------------------------------------------------------------------------------------------- FastCGI
+FCGI_BEGIN, FCGI_ABORT, FCGI_END, FCGI_PARAMS, FCGI_STDIN, FCGI_STDOUT, FCGI_STDERR = 1, 2, 3, 4, 5, 6, 7
+
+
+def fcgi_record(typ, reqid, content, padding=0, padbytes=None):
+    pad = (padbytes if padbytes is not None else b"\0" * padding)
+    return struct.pack(">BBHHBB", 1, typ, reqid, len(content), len(pad), 0) + content + pad
+
+
+def fcgi_stdout(reqid, blocks, paddings=None, end=True, app_status=0):
+    """blocks -> FCGI_STDOUT records (one per block, optional padding each) + empty STDOUT + END_REQUEST"""
+    out = []
+    for i, b in enumerate(blocks):
+        out.append(fcgi_record(FCGI_STDOUT, reqid, b, (paddings[i] if paddings else 0)))
+    if end:
+        out.append(fcgi_record(FCGI_STDOUT, reqid, b""))
+        out.append(fcgi_record(FCGI_END, reqid, struct.pack(">IB3x", app_status, 0)))
+    return out
+
+
+def fcgi_decode_params(raw):
+    """strict decoder of FCGI name-value pairs; raises ValueError when the stream is malformed"""
+    out = []; p = 0
+    def ln():
+        nonlocal p
+        if p >= len(raw): raise ValueError("length byte missing at %d" % p)
+        b = raw[p]
+        if b < 128: p += 1; return b
+        if p + 4 > len(raw): raise ValueError("4-byte length truncated at %d" % p)
+        v = struct.unpack(">I", raw[p:p + 4])[0] & 0x7fffffff; p += 4; return v
+    while p < len(raw):
+        nl = ln(); vl = ln()
+        if p + nl + vl > len(raw): raise ValueError("pair at %d overruns the stream (name %d value %d, %d left)" % (p, nl, vl, len(raw) - p))
+        out.append((raw[p:p + nl], raw[p + nl:p + nl + vl])); p += nl + vl
+    return out
+
+
+class FcgiBackend:
+    """FastCGI responder: records every request (raw PARAMS stream, decoded pairs, STDIN bytes, record-level problems) and answers with
+    the script selected by id=<n> in QUERY_STRING: list of (bytes, delay) segments of raw record bytes, then 'close' | 'keep' | 'rst'."""
+    def __init__(self):
+        self.sock = socket.socket(); self.sock.setsockopt(socket.SOL_SOCKET, socket.SO_REUSEADDR, 1)
+        self.sock.bind(("127.0.0.1", 0)); self.sock.listen(64)
+        self.port = self.sock.getsockname()[1]
+        self.scripts = {}; self.requests = []; self.lock = threading.Lock(); self.stop_flag = False
+        self.default = None
+        self.th = threading.Thread(target=self._accept, daemon=True); self.th.start()
+
+    def script(self, sid, segments_fn, end="close"):
+        """segments_fn(reqid) -> list of (bytes, delay)"""
+        self.scripts[sid] = (segments_fn, end)
+
+    def _accept(self):
+        self.sock.settimeout(0.2)
+        while not self.stop_flag:
+            try: c, _ = self.sock.accept()
+            except socket.timeout: continue
+            except OSError: break
+            threading.Thread(target=self._serve, args=(c,), daemon=True).start()
+
+    def _serve(self, c):
+        c.settimeout(8.0)
+        buf = b""
+        def need(n):
+            nonlocal buf
+            while len(buf) < n:
+                d = c.recv(65536)
+                if not d: return False
+                buf += d
+            return True
+        try:
+            while True:
+                params = b""; stdin = b""; problems = []; reqid = None; got_params_end = False; nrec = 0
+                while True:
+                    if not need(8): return
+                    ver, typ, rid, clen, plen, _ = struct.unpack(">BBHHBB", buf[:8])
+                    if not need(8 + clen + plen): return
+                    content = buf[8:8 + clen]; buf = buf[8 + clen + plen:]; nrec += 1
+                    if ver != 1: problems.append("record version %d" % ver)
+                    if typ == FCGI_BEGIN:
+                        reqid = rid
+                        if clen != 8: problems.append("BEGIN_REQUEST content length %d" % clen)
+                    elif typ == FCGI_PARAMS:
+                        if rid != reqid: problems.append("PARAMS for request id %d, expected %s" % (rid, reqid))
+                        if got_params_end: problems.append("PARAMS after end of PARAMS")
+                        if clen == 0: got_params_end = True
+                        params += content
+                    elif typ == FCGI_STDIN:
+                        if not got_params_end: problems.append("STDIN before end of PARAMS")
+                        if clen == 0: break
+                        stdin += content
+                    elif typ == FCGI_ABORT:
+                        problems.append("ABORT_REQUEST"); break
+                    else: problems.append("unexpected record type %d" % typ)
+                try: pairs = fcgi_decode_params(params)
+                except ValueError as e: pairs = None; problems.append("PARAMS malformed: %s" % e)
+                with self.lock: self.requests.append(dict(params_raw=params, pairs=pairs, stdin=stdin, problems=problems))
+                q = b""
+                for k, v in (pairs or []):
+                    if k in (b"QUERY_STRING", b"REQUEST_URI"): q += b" " + v
+                sm = re.search(rb"id=(\d+)", q)
+                fn, end = self.scripts.get(int(sm.group(1)) if sm else -1, (None, "close"))
+                if fn is None:
+                    body = b"Status: 200\r\nContent-Type: text/plain\r\n\r\nok"
+                    segs = [(b"".join(fcgi_stdout(reqid or 1, [body])), 0)]
+                else:
+                    segs = fn(reqid or 1)
+                for data, delay in segs:
+                    if delay: time.sleep(delay)
+                    try: c.sendall(data)
+                    except OSError: return
+                if end == "keep": continue
+                if end == "rst": c.setsockopt(socket.SOL_SOCKET, socket.SO_LINGER, struct.pack("ii", 1, 0))
+                return
+        except (socket.timeout, OSError):
+            return
+        finally:
+            try: c.close()
+            except OSError: pass
+
+    def stop(self):
+        self.stop_flag = True
+        try: self.sock.close()
+        except OSError: pass
+
+
+# ---------------------------------------------------------------------------------------------- SCGI
+class ScgiBackend:
+    """SCGI responder: records the netstring header block and body of every request; answers like HttpBackend scripts (CGI-style response)."""
+    def __init__(self):
+        self.sock = socket.socket(); self.sock.setsockopt(socket.SOL_SOCKET, socket.SO_REUSEADDR, 1)
+        self.sock.bind(("127.0.0.1", 0)); self.sock.listen(64)
+        self.port = self.sock.getsockname()[1]
+        self.scripts = {}; self.requests = []; self.lock = threading.Lock(); self.stop_flag = False
+        self.th = threading.Thread(target=self._accept, daemon=True); self.th.start()
+
+    def script(self, sid, segments, end="close"):
+        self.scripts[sid] = (segments, end)
+
+    def _accept(self):
+        self.sock.settimeout(0.2)
+        while not self.stop_flag:
+            try: c, _ = self.sock.accept()
+            except socket.timeout: continue
+            except OSError: break
+            threading.Thread(target=self._serve, args=(c,), daemon=True).start()
+
+    def _serve(self, c):
+        c.settimeout(8.0); buf = b""; problems = []
+        try:
+            while b":" not in buf[:12]:
+                d = c.recv(65536)
+                if not d: return
+                buf += d
+            m = re.match(rb"(\d+):", buf)
+            if not m:
+                with self.lock: self.requests.append(dict(pairs=None, body=b"", problems=["no netstring length: %r" % buf[:20]])); return
+            n = int(m.group(1)); start = m.end()
+            while len(buf) < start + n + 1:
+                d = c.recv(65536)
+                if not d: break
+                buf += d
+            hdr = buf[start:start + n]
+            if buf[start + n:start + n + 1] != b",": problems.append("netstring not terminated by ','")
+            parts = hdr.split(b"\0")
+            if parts[-1] != b"": problems.append("header block does not end with NUL")
+            parts = parts[:-1]
+            if len(parts) % 2: problems.append("odd number of NUL-terminated strings")
+            pairs = list(zip(parts[0::2], parts[1::2]))
+            if not pairs or pairs[0][0] != b"CONTENT_LENGTH": problems.append("CONTENT_LENGTH is not the first header")
+            cl = int(pairs[0][1]) if pairs and pairs[0][0] == b"CONTENT_LENGTH" and pairs[0][1].isdigit() else 0
+            body = buf[start + n + 1:]
+            while len(body) < cl:
+                d = c.recv(65536)
+                if not d: break
+                body += d
+            if len(body) != cl: problems.append("body of %d bytes, CONTENT_LENGTH %d" % (len(body), cl))
+            with self.lock: self.requests.append(dict(pairs=pairs, body=body, problems=problems))
+            q = b" ".join(v for k, v in pairs if k in (b"QUERY_STRING", b"REQUEST_URI"))
+            sm = re.search(rb"id=(\d+)", q)
+            segs, end = self.scripts.get(int(sm.group(1)) if sm else -1, ([(b"Status: 200\r\nContent-Type: text/plain\r\n\r\nok", 0)], "close"))
+            for data, delay in segs:
+                if delay: time.sleep(delay)
+                try: c.sendall(data)
+                except OSError: return
+            if end == "rst": c.setsockopt(socket.SOL_SOCKET, socket.SO_LINGER, struct.pack("ii", 1, 0))
+        except (socket.timeout, OSError):
+            return
+        finally:
+            try: c.close()
+            except OSError: pass
+
+    def stop(self):
+        self.stop_flag = True
+        try: self.sock.close()
+        except OSError: pass
